@@ -165,6 +165,8 @@ func (p *Parser) parseWithRecovery(tokens []token.Token) ([]ast.Statement, []err
 
 	statements := make([]ast.Statement, 0, 8)
 	errors := make([]error, 0, 4)
+	// cursor position right after the most recent statement when no semicolon followed it (-1: none)
+	unterminatedEnd := -1
 
 	for p.currentPos < len(tokens) && !p.isType(models.TokenTypeEOF) {
 		// Skip semicolons between statements
@@ -174,8 +176,15 @@ func (p *Parser) parseWithRecovery(tokens []token.Token) ([]ast.Statement, []err
 		}
 
 		stmtStartPos := p.currentPos
+		startsStatement := p.isStatementStartingKeyword()
 		stmt, err := p.parseStatement()
 		if err != nil {
+			// A statement directly followed, without a semicolon, by tokens that cannot start a
+			// statement was only the well-formed prefix of a malformed statement: the input does
+			// not contain it as a statement, so it is not returned.
+			if unterminatedEnd == stmtStartPos && !startsStatement && len(statements) > 0 {
+				statements = statements[:len(statements)-1]
+			}
 			// Create a ParseError with position info, preserving original error
 			loc := p.currentLocation()
 			pe := &ParseError{
@@ -201,6 +210,8 @@ func (p *Parser) parseWithRecovery(tokens []token.Token) ([]ast.Statement, []err
 			// Optionally consume semicolon after statement
 			if p.isType(models.TokenTypeSemicolon) {
 				p.advance()
+			} else {
+				unterminatedEnd = p.currentPos
 			}
 		}
 	}
